@@ -98,9 +98,11 @@ def build_harness():
             shutil.rmtree(alt, ignore_errors=True)
             shutil.copytree(hdir, alt, ignore=shutil.ignore_patterns("target"))
             mp = os.path.join(alt, "src", "main.rs")
-            open(mp, "w").write(open(mp).read().replace('"/repo/src/', '"%s/src/' % REPO))
+            text = open(mp).read().replace('"/repo/src/', '"%s/src/' % REPO)
+            open(mp, "w").write(text)
             cfgp = os.path.join(alt, ".cargo", "config.toml")
-            open(cfgp, "w").write(open(cfgp).read().replace('"../.build/harness"', '"%s"' % os.path.join(BUILD, "harness")))
+            text = open(cfgp).read().replace('"../.build/harness"', '"%s"' % os.path.join(BUILD, "harness"))
+            open(cfgp, "w").write(text)
             hdir = alt
         rc, out = run(["cargo", "build", "--offline"], cwd=hdir,
                       env={"CARGO_NET_OFFLINE": "true"}, timeout=1500)
